@@ -367,7 +367,9 @@ func chanElem(t types.Type) types.Type { return t.Underlying().(*types.Chan).Ele
 
 func (ex *Exec) chanComps(elem types.Type) (seq, seqSort, n string) {
 	es := ex.ctx.SortOf(elem)
-	return "ChanSent_" + typeKey(elem), ArraySort(SRef, ArraySort(SInt, es)), "ChanSentN"
+	// counters and the closed flag are kept per element type: channels of different element types are different
+	// objects, and this keeps them apart without any aliasing side conditions
+	return "ChanSent_" + typeKey(elem), ArraySort(SRef, ArraySort(SInt, es)), "ChanSentN_" + typeKey(elem)
 }
 
 func (fr *Frame) chanSend(st *State, ch, x *Term, chType types.Type, cond *Term, pos token.Pos) {
@@ -375,7 +377,7 @@ func (fr *Frame) chanSend(st *State, ch, x *Term, chType types.Type, cond *Term,
 	elem := chanElem(chType)
 	seq, ss, nc := ex.chanComps(elem)
 	ns := ArraySort(SRef, SInt)
-	closed := ex.get(st, "ChanClosed", ArraySort(SRef, SBool))
+	closed := ex.get(st, "ChanClosed_"+typeKey(elem), ArraySort(SRef, SBool))
 	if cond.Op == "true" {
 		fr.safetyNamed(st, "chan", Not(Select(closed, ch)), pos, "send on closed channel", nil)
 	} else {
@@ -399,12 +401,12 @@ func (fr *Frame) chanRecv(st *State, ch *Term, chType types.Type, commaOk bool, 
 	v := ex.ctx.Fresh("recv", es)
 	ok := ex.ctx.Fresh("recv.ok", SBool)
 	sq := ex.get(st, seq, ss)
-	n := ex.get(st, "ChanRecvN", ns)
+	n := ex.get(st, "ChanRecvN_"+typeKey(elem), ns)
 	cnt := Select(n, ch)
 	ex.assume(st, Implies(Not(ok), Eq(v, ex.ctx.Zero(elem))))
 	fr.loadFacts(st, v, elem)
 	ex.set(st, seq, Ite(ok, Store(sq, ch, Store(Select(sq, ch), cnt, v)), sq))
-	ex.set(st, "ChanRecvN", Ite(ok, Store(n, ch, Add(cnt, IntLit(1))), n))
+	ex.set(st, "ChanRecvN_"+typeKey(elem), Ite(ok, Store(n, ch, Add(cnt, IntLit(1))), n))
 	if commaOk {
 		return Val{Tup: []Val{{T: v}, {T: ok}}}
 	}
